@@ -108,7 +108,7 @@ type tierBudget struct {
 }
 
 func budget(tier string) tierBudget {
-	b := tierBudget{Runs: 192, Wall: 100 * time.Second}
+	b := tierBudget{Runs: 1 << 30, Wall: 40 * time.Second}
 	if tier == "thorough" {
 		b = tierBudget{Runs: 1 << 30, Wall: 12 * time.Minute}
 	}
